@@ -865,3 +865,434 @@ Section Instances.
       ([(0%nat, 15); (1%nat, 15)], 4%nat).
   Proof. vm_compute. reflexivity. Qed.
 End Instances.
+
+(* =================================================================================================
+   C'. running average: any value type, analysis starting at any relative step t0
+   ================================================================================================= *)
+Lemma sumf_split_first (g : nat -> R) n : (1 <= n)%nat ->
+  sumf Rops g n = (g 0%nat + sumf Rops (fun j => g (S j)) (n - 1))%R.
+Proof. intros Hn. destruct n as [|n]; [lia|]. replace (S n - 1)%nat with n by lia. apply sumf_shift. Qed.
+
+Section RunaveAny.
+  Local Open Scope R_scope.
+  Context {V : Type} (P : @vops R V) (dflt : V).
+  Variables (xs : list V) (L s it0 t0 : nat).
+  Hypothesis HL : (1 <= L)%nat.
+  Hypothesis Hs : (1 <= s)%nat.
+  Notation x_ := (xatV dflt xs).
+
+  (* sampled values up to relative step t, newest first: steps u in (t0, t] on the stride grid (the value of the
+     step at which the analysis starts, t0, is not sampled) *)
+  Fixpoint samplesV (t : nat) : list V :=
+    match t with
+    | 0%nat => []
+    | S u => if ((t0 <? S u) && ((S u) mod s =? 0))%nat then x_ (S u) :: samplesV u else samplesV u
+    end.
+
+  Lemma samplesV_spec : forall t,
+    length (samplesV t) = (t / s - t0 / s)%nat /\
+    forall j, (j < t / s - t0 / s)%nat -> nth j (samplesV t) dflt = x_ ((t / s) * s - j * s)%nat.
+  Proof.
+    induction t as [|u [IHl IHn]].
+    - cbn [samplesV length]. rewrite Nat.div_0_l by lia. split; [reflexivity|]. intros j Hj. lia.
+    - destruct (div_succ s u Hs) as [D1 D2]. cbn [samplesV].
+      destruct ((S u) mod s =? 0)%nat eqn:E.
+      + apply Nat.eqb_eq in E. destruct (D1 E) as [Hq Hm]. rewrite Hq.
+        destruct (t0 <? S u)%nat eqn:E0; cbn [andb].
+        * apply Nat.ltb_lt in E0.
+          assert (Hle : (t0 / s <= u / s)%nat) by (apply Nat.div_le_mono; lia).
+          split.
+          -- cbn [length]. rewrite IHl. lia.
+          -- intros j Hj. destruct j as [|j]; cbn [nth].
+             ++ f_equal. lia.
+             ++ rewrite IHn by lia. f_equal. nia.
+        * apply Nat.ltb_ge in E0.
+          assert (Hle : (S (u / s) <= t0 / s)%nat).
+          { rewrite <- Hq. apply Nat.div_le_mono; lia. }
+          split; [rewrite IHl; lia|]. intros j Hj. lia.
+      + apply Nat.eqb_neq in E. rewrite (D2 E), andb_false_r. split; [exact IHl|exact IHn].
+  Qed.
+
+  Definition rlineV_spec (t : nat) : nat * V * R * R :=
+    ((it0 + t)%nat, win_meanV Rops P dflt xs L s t, win_varV Rops P dflt xs L s t, sqrt (win_varV Rops P dflt xs L s t)).
+  (* a line at t: on the stride grid, with L sampled steps t, t-s, .., t-(L-1)s all after t0 *)
+  Definition emitsV (t : nat) : bool := ((t mod s =? 0) && (L <=? t / s - t0 / s))%nat.
+
+  Lemma fold_sum_map_seq {A} (g : A -> R) (f : nat -> A) : forall n k0 a,
+    fold_left (fun acc xi => acc + g xi) (map f (seq k0 n)) a = a + sumf Rops (fun j => g (f (k0 + j)%nat)) n.
+  Proof.
+    induction n as [|n IH]; intros k0 a.
+    - cbn [seq map fold_left sumf Rops n0]. ring.
+    - cbn [seq map fold_left]. rewrite IH, sumf_shift. rewrite Nat.add_0_r.
+      rewrite (sumf_ext (fun j => g (f (S k0 + j)%nat)) (fun j => g (f (k0 + S j)%nat))).
+      2:{ intros j _. do 2 f_equal. lia. }
+      ring.
+  Qed.
+
+  Lemma runaveV_from : forall rest done t st,
+    xs = done ++ rest -> length done = t -> (t0 < t)%nat ->
+    rv_init st = true -> rv_hist st = firstn (L - 1) (samplesV (t - 1)) ->
+    runaveV_run Rops P L s it0 st (Some (t - 1)%nat) (hist_from t rest) =
+    flat_map (fun u => if emitsV u then [rlineV_spec u] else []) (seq t (length rest)).
+  Proof.
+    induction rest as [|x rest IH]; intros done t st Hxs Hlen Ht Hinit Hhist; cbn [hist_from runaveV_run length seq flat_map]; [reflexivity|].
+    assert (Hx : x = x_ t).
+    { unfold xatV. rewrite Hxs, app_nth2 by lia. replace (t - length done)%nat with 0%nat by lia. reflexivity. }
+    destruct t as [|u]; [lia|]. replace (S u - 1)%nat with u in * by lia.
+    destruct (samplesV_spec u) as [Sl Sn].
+    destruct (div_succ s u Hs) as [D1 D2].
+    unfold runaveV_step. rewrite Hinit. cbn [negb after_prev].
+    replace (u <? S u)%nat with true by (symmetry; apply Nat.ltb_lt; lia). rewrite andb_true_r.
+    unfold emitsV.
+    assert (Hrec : forall st', rv_init st' = true -> rv_hist st' = firstn (L - 1) (samplesV (S u)) ->
+              runaveV_run Rops P L s it0 st' (Some (S u)) (hist_from (S (S u)) rest) =
+              flat_map (fun u0 => if ((u0 mod s =? 0) && (L <=? u0 / s - t0 / s))%nat then [rlineV_spec u0] else []) (seq (S (S u)) (length rest))).
+    { intros st' Hi' Hh'. change (Some (S u)) with (Some (S (S u) - 1)%nat).
+      apply (IH (done ++ [x]) (S (S u))); try lia.
+      - rewrite <- app_assoc. exact Hxs.
+      - rewrite app_length. cbn [length]. lia.
+      - exact Hi'.
+      - replace (S (S u) - 1)%nat with (S u) by lia. exact Hh'. }
+    destruct ((S u) mod s =? 0)%nat eqn:E.
+    - apply Nat.eqb_eq in E. destruct (D1 E) as [Hq Hm]. cbn [andb].
+      assert (Hle : (t0 / s <= u / s)%nat) by (apply Nat.div_le_mono; lia).
+      assert (Hlen_h : length (rv_hist st) = Nat.min (L - 1) (u / s - t0 / s)).
+      { rewrite Hhist, firstn_length, Sl. reflexivity. }
+      assert (Hcond : (L - 1 <=? length (rv_hist st))%nat = (L <=? S u / s - t0 / s)%nat).
+      { rewrite Hlen_h, Hq. destruct (L <=? S (u / s) - t0 / s)%nat eqn:E2.
+        - apply Nat.leb_le in E2. apply Nat.leb_le. lia.
+        - apply Nat.leb_gt in E2. apply Nat.leb_gt. lia. }
+      rewrite Hcond.
+      assert (Hnew : firstn (L - 1) (x :: rv_hist st) = firstn (L - 1) (samplesV (S u))).
+      { rewrite Hhist, firstn_cons_firstn. cbn [samplesV]. rewrite E, Nat.eqb_refl.
+        replace (t0 <? S u)%nat with true by (symmetry; apply Nat.ltb_lt; lia). cbn [andb]. rewrite <- Hx. reflexivity. }
+      destruct (L <=? S u / s - t0 / s)%nat eqn:E2.
+      + apply Nat.leb_le in E2. rewrite Hq in E2. cbn [app]. f_equal.
+        * unfold rlineV_spec.
+          assert (Hwin : rv_hist st = map (fun j => x_ (S u - j * s)%nat) (seq 1 (L - 1))).
+          { rewrite Hhist. apply (nth_ext _ _ dflt dflt).
+            - rewrite firstn_length, Sl, map_length, seq_length. lia.
+            - intros j Hj. rewrite firstn_length, Sl in Hj.
+              rewrite nth_firstn' by lia. rewrite nth_map_seq by lia. rewrite Sn by lia. f_equal. nia. }
+          assert (Hav : vo_constrain P (vo_scale P (ndiv Rops (n1 Rops) (ofnat Rops L)) (fold_left (vo_add P) (map (vo_near P x) (rv_hist st)) x)) =
+                        win_meanV Rops P dflt xs L s (S u)).
+          { unfold win_meanV, win_sumV. rewrite Hwin, map_map, <- Hx. reflexivity. }
+          rewrite Hav.
+          set (m := win_meanV Rops P dflt xs L s (S u)).
+          assert (Hvar : nmul Rops (fold_left (fun acc xi => nadd Rops acc (vo_dist2 P xi m)) (rv_hist st)
+                                       (nadd Rops (n0 Rops) (vo_dist2 P x m)))
+                              (ndiv Rops (n1 Rops) (ofnat Rops (L - 1))) = win_varV Rops P dflt xs L s (S u)).
+          { unfold win_varV. fold m. cbn [Rops nmul ndiv n1 nadd n0].
+            rewrite Hwin, (fold_sum_map_seq (fun xi => vo_dist2 P xi m)).
+            rewrite (sumf_split_first (fun j => vo_dist2 P (x_ (S u - j * s)%nat) m) L HL).
+            replace (S u - 0 * s)%nat with (S u) by lia. rewrite <- Hx.
+            change (fun j : nat => vo_dist2 P (x_ (S u - (1 + j) * s)%nat) m) with (fun j : nat => vo_dist2 P (x_ (S u - S j * s)%nat) m).
+            unfold Rdiv. ring. }
+          rewrite Hvar. reflexivity.
+        * apply Hrec; [reflexivity|exact Hnew].
+      + cbn [app]. apply Hrec; [reflexivity|exact Hnew].
+    - cbn [andb app]. apply Hrec; [exact Hinit|]. cbn [samplesV]. rewrite E, andb_false_r. exact Hhist.
+  Qed.
+
+  (* the analysis starts at relative step t0 (0 for a variable defined from the beginning; any step when the
+     variable is defined later): values x(t0), x(t0+1), ..; first call initialises *)
+  Lemma runaveV_lines : (t0 < length xs)%nat ->
+    runaveV_run Rops P L s it0 (rv0 (V:=V)) None (hist_from t0 (skipn t0 xs)) =
+    flat_map (fun u => if emitsV u then [rlineV_spec u] else []) (seq (S t0) (length xs - S t0)).
+  Proof.
+    intros Ht0.
+    assert (Hsplit : xs = firstn t0 xs ++ skipn t0 xs) by (symmetry; apply firstn_skipn).
+    destruct (skipn t0 xs) as [|x0 rest] eqn:Esk.
+    { exfalso. assert (length (skipn t0 xs) = 0%nat) by (rewrite Esk; reflexivity). rewrite skipn_length in H. lia. }
+    cbn [hist_from runaveV_run]. unfold runaveV_step at 1. cbn [rv0 rv_init negb app].
+    assert (Hlr : length rest = (length xs - S t0)%nat).
+    { assert (length (skipn t0 xs) = S (length rest)) by (rewrite Esk; reflexivity). rewrite skipn_length in H. lia. }
+    rewrite <- Hlr.
+    replace (Some t0) with (Some (S t0 - 1)%nat) by (f_equal; lia).
+    apply (runaveV_from rest (firstn t0 xs ++ [x0]) (S t0)); try lia.
+    - rewrite <- app_assoc. exact Hsplit.
+    - rewrite app_length, firstn_length_le by lia. cbn [length]. lia.
+    - reflexivity.
+    - cbn [rv_hist]. replace (S t0 - 1)%nat with t0 by lia.
+      assert (Hz : samplesV t0 = []).
+      { destruct (samplesV_spec t0) as [Sl _]. rewrite Nat.sub_diag in Sl. destruct (samplesV t0); [reflexivity|discriminate]. }
+      rewrite Hz. destruct (L - 1)%nat; reflexivity.
+  Qed.
+
+  Lemma emitsV_iff : forall t, emitsV t = true <-> (t mod s = 0 /\ t0 / s * s + L * s <= t)%nat.
+  Proof.
+    intros t. unfold emitsV. rewrite andb_true_iff, Nat.eqb_eq, Nat.leb_le.
+    pose proof (Nat.div_mod_eq t s). pose proof (Nat.mod_upper_bound t s ltac:(lia)).
+    split; intros [H1 H2]; split; try exact H1; nia.
+  Qed.
+End RunaveAny.
+
+(* the periodic metric used for the deviations: the image of smallest absolute value *)
+Lemma pimage_min_image : forall p d : R, (0 < p)%R ->
+  exists k : Z, (pimage Rops p d = d - IZR k * p /\ - p / 2 <= d - IZR k * p < p / 2)%R.
+Proof.
+  intros p d Hp. unfold pimage, nhalf. cbn [Rops nsub nmul nofZ nfloor nadd ndiv n1].
+  set (k := Flocq.Core.Raux.Zfloor (d / p + 1 / 2)). exists k. split; [reflexivity|].
+  pose proof (Flocq.Core.Raux.Zfloor_lb (d / p + 1 / 2)) as Hl. pose proof (Flocq.Core.Raux.Zfloor_ub (d / p + 1 / 2)) as Hu. fold k in Hl, Hu.
+  assert (Hd : (d = d / p * p)%R) by (field; lra).
+  split.
+  - assert ((IZR k - 1 / 2) * p <= d / p * p)%R by (apply Rmult_le_compat_r; lra). lra.
+  - assert (d / p * p < (IZR k + 1 / 2) * p)%R by (apply Rmult_lt_compat_r; lra). lra.
+Qed.
+
+(* periodic scalars, period 8 wrapped around 0: the values 7/2 and -7/2 are one unit apart across the boundary;
+   window 2: the average is -4 (= 4 modulo the period), squared deviations 1/4 each, sample variance 1/2 *)
+Lemma runave_periodic_instance :
+  let P := lv_ops Qops (KPeriodic 8%Q 0%Q) in
+  runaveV_run Qops P 2 1 0 (rv0 (V:=list Q)) None (hist [[0]; [7 # 2]; [- 7 # 2]]%Q) =
+    [(2%nat, [(-4)%Q], (1 # 2)%Q, (1 # 2)%Q)].
+Proof. vm_compute. reflexivity. Qed.
+
+(* what enters the periodic average for an older value xi when the current value is x: the image of xi within half a
+   period of x *)
+Lemma periodic_near_image : forall p c x xi : R, (0 < p)%R ->
+  exists (k : Z) (y : R), lv_near Rops (KPeriodic p c) [x] [xi] = [y] /\ (y = xi - IZR k * p /\ - p / 2 <= y - x < p / 2)%R.
+Proof.
+  intros p c x xi Hp. destruct (pimage_min_image p (xi - x) Hp) as [k [Hk Hr]].
+  exists k, (x + pimage Rops p (xi - x))%R. split.
+  - unfold lv_near, nhalf. cbn [hd Rops nadd nmul nofZ nsub ndiv n1 n0]. f_equal. field.
+  - rewrite Hk. split; lra.
+Qed.
+
+(* the reported periodic average is wrapped into [c - p/2, c + p/2) and is congruent to the plain value *)
+Lemma periodic_constrain_wraps : forall p c m : R, (0 < p)%R ->
+  exists (k : Z) (y : R), lv_constrain Rops (KPeriodic p c) [m] = [y] /\ (y = m - IZR k * p /\ c - p / 2 <= y < c + p / 2)%R.
+Proof.
+  intros p c m Hp. destruct (pimage_min_image p (m - c) Hp) as [k [Hk Hr]].
+  exists k, (m - IZR k * p)%R. split.
+  - unfold lv_constrain, nhalf. cbn [Rops nsub nmul nofZ nfloor nadd ndiv n1].
+    unfold pimage, nhalf in Hk. cbn [Rops nsub nmul nofZ nfloor nadd ndiv n1] in Hk.
+    f_equal. assert (IZR (Flocq.Core.Raux.Zfloor ((m - c) / p + 1 / 2)) * p = IZR k * p)%R by lra.
+    lra.
+  - split; lra.
+Qed.
+
+(* =================================================================================================
+   E. which steps write the state file, the variables' files and the biases' files
+   ================================================================================================= *)
+Lemma NoDup_app_last {A} (l : list A) (a : A) : NoDup l -> ~ In a l -> NoDup (l ++ [a]).
+Proof.
+  induction l as [|b l IH]; intros Hnd Hn; cbn [app].
+  - constructor; [intros []|constructor].
+  - inversion Hnd as [|? ? Hb Hl]; subst. constructor.
+    + intros Hin. apply in_app_or in Hin. destruct Hin as [Hin|[Hin|[]]]; [contradiction|]. apply Hn. left. symmetry. exact Hin.
+    + apply IH; [exact Hl|]. intros Hin. apply Hn. right. exact Hin.
+Qed.
+
+Section OutputSchedule.
+  Local Open Scope Z_scope.
+
+  Lemma writes_of_app : forall k l1 l2, writes_of k (l1 ++ l2) = writes_of k l1 ++ writes_of k l2.
+  Proof. intros. unfold writes_of. apply flat_map_app. Qed.
+
+  Lemma writes_of_bias_list_other : forall k it (g : Z * Z -> bool) l,
+    (forall b, k <> FBias b) ->
+    writes_of k (map (fun f => (it, f)) (flat_map (fun bf : Z * Z => if g bf then [FBias (fst bf)] else []) l)) = [].
+  Proof.
+    intros k it g l Hk. induction l as [|bf l IH]; [reflexivity|]. cbn [flat_map]. rewrite map_app, writes_of_app, IH, app_nil_r.
+    destruct (g bf); [|reflexivity]. cbn [map writes_of flat_map snd fst app].
+    destruct k; cbn [ofile_eqb]; try reflexivity. exfalso. apply (Hk b). reflexivity.
+  Qed.
+
+  Lemma writes_of_bias_list : forall b f it (g : Z * Z -> bool) l,
+    NoDup (map fst l) -> In (b, f) l ->
+    writes_of (FBias b) (map (fun x => (it, x)) (flat_map (fun bf : Z * Z => if g bf then [FBias (fst bf)] else []) l)) =
+    if g (b, f) then [it] else [].
+  Proof.
+    intros b f it g l. induction l as [|bf l IH]; intros Hnd Hin; [contradiction|].
+    cbn [map] in Hnd. inversion Hnd as [|? ? Hnot Hnd']; subst.
+    cbn [flat_map]. rewrite map_app, writes_of_app.
+    destruct Hin as [Heq|Hin].
+    - subst bf. cbn [fst] in Hnot.
+      assert (Hrest : writes_of (FBias b) (map (fun x => (it, x)) (flat_map (fun bf : Z * Z => if g bf then [FBias (fst bf)] else []) l)) = []).
+      { clear IH Hnd Hnd'. induction l as [|bf' l IHl]; [reflexivity|]. cbn [flat_map]. rewrite map_app, writes_of_app.
+        cbn [map] in Hnot. rewrite IHl by (intros H; apply Hnot; right; exact H). rewrite app_nil_r.
+        destruct (g bf'); [|reflexivity]. cbn [map writes_of flat_map snd fst app ofile_eqb].
+        destruct (fst bf' =? b) eqn:E; [|reflexivity]. apply Z.eqb_eq in E. exfalso. apply Hnot. left. exact E. }
+      rewrite Hrest, app_nil_r. destruct (g (b, f)); [|reflexivity].
+      cbn [map writes_of flat_map snd fst app ofile_eqb]. rewrite Z.eqb_refl. reflexivity.
+    - rewrite (IH Hnd' Hin).
+      assert (Hne : fst bf <> b).
+      { intros Heq. apply Hnot. rewrite Heq. change b with (fst (b, f)). apply in_map. exact Hin. }
+      destruct (g bf); [|reflexivity]. cbn [map writes_of flat_map snd fst app ofile_eqb].
+      destruct (fst bf =? b) eqn:E; [apply Z.eqb_eq in E; contradiction|reflexivity].
+  Qed.
+
+  (* the frequency that governs file k *)
+  Definition governs (c : ocfg) (k : ofile) (f : Z) : Prop :=
+    match k with
+    | FState => False
+    | FColvar => f = oc_restart_freq c
+    | FBias b => In (b, f) (oc_biases c)
+    end.
+
+  Lemma writes_calc : forall c k f it, NoDup (map fst (oc_biases c)) -> governs c k f ->
+    writes_of k (out_event c (OCalc it)) = if at_freq c f it then [it] else [].
+  Proof.
+    intros c k f it Hnd Hg. unfold out_event, out_calc. rewrite map_app, writes_of_app.
+    destruct k as [| |b]; cbn [governs] in Hg; [contradiction| |].
+    - subst f. rewrite (writes_of_bias_list_other FColvar it (fun bf => at_freq c (snd bf) it)) by discriminate. rewrite app_nil_r.
+      destruct (at_freq c (oc_restart_freq c) it); reflexivity.
+    - rewrite (writes_of_bias_list b f it (fun bf => at_freq c (snd bf) it) _ Hnd Hg). cbn [snd].
+      destruct (at_freq c (oc_restart_freq c) it); reflexivity.
+  Qed.
+
+  Lemma writes_end : forall c k f it, NoDup (map fst (oc_biases c)) -> governs c k f ->
+    writes_of k (out_event c (OEnd it)) = if at_freq c f it then [] else [it].
+  Proof.
+    intros c k f it Hnd Hg. unfold out_event, out_end. cbn [map]. rewrite map_app.
+    change ((it, FState) :: ?a ++ ?b) with ([(it, FState)] ++ a ++ b). rewrite !writes_of_app.
+    destruct k as [| |b]; cbn [governs] in Hg; [contradiction| |].
+    - subst f. rewrite (writes_of_bias_list_other FColvar it (fun bf => negb (at_freq c (snd bf) it))) by discriminate. rewrite app_nil_r.
+      destruct (at_freq c (oc_restart_freq c) it); reflexivity.
+    - rewrite (writes_of_bias_list b f it (fun bf => negb (at_freq c (snd bf) it)) (oc_biases c) Hnd Hg).
+      + cbn [snd]. destruct (at_freq c (oc_restart_freq c) it); destruct (at_freq c f it); reflexivity.
+  Qed.
+
+  Lemma writes_run_calcs : forall c k f l, NoDup (map fst (oc_biases c)) -> governs c k f ->
+    writes_of k (out_run c (map OCalc l)) = filter (at_freq c f) l.
+  Proof.
+    intros c k f l Hnd Hg. induction l as [|it l IH]; [reflexivity|].
+    unfold out_run in *. cbn [map flat_map filter]. rewrite writes_of_app, IH, (writes_calc c k f it Hnd Hg).
+    destruct (at_freq c f it); reflexivity.
+  Qed.
+
+  (* a run over the steps s0 .. s0+n followed by the end of the run *)
+  Lemma output_steps : forall c k f s0 n, NoDup (map fst (oc_biases c)) -> governs c k f ->
+    let last := s0 + Z.of_nat n in
+    writes_of k (out_run c (map OCalc (run_steps s0 (S n)) ++ [OEnd last])) =
+    filter (at_freq c f) (run_steps s0 (S n)) ++ (if at_freq c f last then [] else [last]).
+  Proof.
+    intros c k f s0 n Hnd Hg last. unfold out_run. rewrite flat_map_app, writes_of_app.
+    change (flat_map (out_event c) (map OCalc (run_steps s0 (S n)))) with (out_run c (map OCalc (run_steps s0 (S n)))).
+    rewrite (writes_run_calcs c k f _ Hnd Hg). f_equal.
+    cbn [flat_map]. rewrite app_nil_r. apply (writes_end c k f last Hnd Hg).
+  Qed.
+
+  Lemma run_steps_last : forall s0 n, In (s0 + Z.of_nat n) (run_steps s0 (S n)).
+  Proof. intros. unfold run_steps. apply in_map_iff. exists n. split; [reflexivity|]. apply in_seq. lia. Qed.
+
+  (* the file is written at most once per step, the last write is at the last step of the run, and the writes are the
+     multiples of the governing frequency after the first step of the run segment, plus the last step *)
+  Lemma output_final_and_once : forall c k f s0 n, NoDup (map fst (oc_biases c)) -> governs c k f ->
+    let last := s0 + Z.of_nat n in
+    let w := writes_of k (out_run c (map OCalc (run_steps s0 (S n)) ++ [OEnd last])) in
+    NoDup w /\ List.last w 0 = last /\
+    forall it, In it w <-> (it = last \/ (s0 <= it <= last /\ at_freq c f it = true)).
+  Proof.
+    intros c k f s0 n Hnd Hg. cbn zeta.
+    pose proof (output_steps c k f s0 n Hnd Hg) as Hos. cbn zeta in Hos. rewrite Hos. clear Hos.
+    set (last := s0 + Z.of_nat n).
+    pose proof (run_steps_nodup s0 (S n)) as Hnd2.
+    pose proof (run_steps_last s0 n) as Hlast. fold last in Hlast.
+    assert (Hrange : forall it, In it (run_steps s0 (S n)) <-> s0 <= it <= last).
+    { intros it. unfold run_steps. rewrite in_map_iff. split.
+      - intros [i [Hi Hin]]. apply in_seq in Hin. unfold last. lia.
+      - intros Hr. exists (Z.to_nat (it - s0)). split; [lia|]. apply in_seq. unfold last in Hr. lia. }
+    (* the last step is the last element of the run *)
+    assert (Hsplit : run_steps s0 (S n) = run_steps s0 n ++ [last]).
+    { unfold run_steps. rewrite seq_S, map_app. reflexivity. }
+    destruct (at_freq c f last) eqn:E.
+    - rewrite app_nil_r. repeat split.
+      + apply NoDup_filter. exact Hnd2.
+      + rewrite Hsplit, filter_app. cbn [filter]. rewrite E. apply last_last.
+      + intros Hin. apply filter_In in Hin. destruct Hin as [Hin Hf]. right. split; [apply Hrange; exact Hin|exact Hf].
+      + intros [->|[Hr Hf]]; apply filter_In; split; try assumption. apply Hrange. exact Hr.
+    - repeat split.
+      + apply NoDup_app_last; [apply NoDup_filter; exact Hnd2|].
+        intros Hin. apply filter_In in Hin. destruct Hin as [_ Hf]. congruence.
+      + apply last_last.
+      + intros Hin. apply in_app_or in Hin. destruct Hin as [Hin|[Hin|[]]].
+        * apply filter_In in Hin. destruct Hin as [Hin Hf]. right. split; [apply Hrange; exact Hin|exact Hf].
+        * left. symmetry. exact Hin.
+      + intros [->|[Hr Hf]]; apply in_or_app.
+        * right. left. reflexivity.
+        * left. apply filter_In. split; [apply Hrange; exact Hr|exact Hf].
+  Qed.
+
+  (* the state file: written by calc() at the restart frequency and always at the end of the run; each write stamps
+     the step at which it happens (writes_of returns those steps), so the last one is the last step *)
+  Lemma state_file_steps : forall c s0 n,
+    let last := s0 + Z.of_nat n in
+    writes_of FState (out_run c (map OCalc (run_steps s0 (S n)) ++ [OEnd last])) =
+    filter (at_freq c (oc_restart_freq c)) (run_steps s0 (S n)) ++ [last].
+  Proof.
+    intros c s0 n last. unfold out_run. rewrite flat_map_app, writes_of_app. f_equal.
+    - induction (run_steps s0 (S n)) as [|it l IH]; [reflexivity|]. cbn [map flat_map filter]. rewrite writes_of_app, IH.
+      unfold out_event, out_calc. rewrite map_app, writes_of_app, (writes_of_bias_list_other FState it (fun bf => at_freq c (snd bf) it)) by discriminate. rewrite app_nil_r.
+      destruct (at_freq c (oc_restart_freq c) it); reflexivity.
+    - cbn [flat_map]. rewrite app_nil_r. unfold out_event, out_end. cbn [map]. rewrite map_app.
+      change ((last, FState) :: ?a ++ ?b) with ([(last, FState)] ++ a ++ b). rewrite !writes_of_app.
+      rewrite (writes_of_bias_list_other FState last (fun bf => negb (at_freq c (snd bf) last))) by discriminate.
+      destruct (at_freq c (oc_restart_freq c) last); reflexivity.
+  Qed.
+End OutputSchedule.
+
+(* =================================================================================================
+   F. label text
+   ================================================================================================= *)
+Definition no_blank (s : list nat) : Prop := Forall (fun c => c <> 32%nat) s.
+
+Lemma strip_trailing_spaces : forall n, strip_trailing (repeat 32%nat n) = [].
+Proof. induction n as [|n IH]; [reflexivity|]. cbn [repeat strip_trailing]. rewrite IH. reflexivity. Qed.
+
+Lemma strip_trailing_app_spaces : forall s n, no_blank s -> strip_trailing (s ++ repeat 32%nat n) = s.
+Proof.
+  induction s as [|c s IH]; intros n Hs; cbn [app].
+  - apply strip_trailing_spaces.
+  - inversion Hs as [|? ? Hc Hs']; subst. cbn [strip_trailing]. rewrite (IH n Hs').
+    destruct s as [|d s]; [|reflexivity]. destruct (c =? 32)%nat eqn:E; [apply Nat.eqb_eq in E; contradiction|reflexivity].
+Qed.
+
+(* a name that fits is printed in full: the token is prefix ++ name *)
+Lemma label_token_short : forall prefix name width,
+  no_blank prefix -> no_blank name -> (length prefix + length name <= width)%nat ->
+  label_token prefix name width = prefix ++ name.
+Proof.
+  intros prefix name width Hp Hn Hl. unfold label_token, label_text, wrap_string.
+  replace (length name <=? width - length prefix)%nat with true by (symmetry; apply Nat.leb_le; lia).
+  rewrite app_assoc. apply strip_trailing_app_spaces. apply Forall_app. split; assumption.
+Qed.
+
+(* hence, for one prefix, names that fit are told apart by their labels *)
+Lemma label_token_injective_short : forall prefix n1 n2 width,
+  no_blank prefix -> no_blank n1 -> no_blank n2 ->
+  (length prefix + length n1 <= width)%nat -> (length prefix + length n2 <= width)%nat ->
+  label_token prefix n1 width = label_token prefix n2 width -> n1 = n2.
+Proof.
+  intros prefix n1 n2 width Hp H1 H2 L1 L2 Heq. rewrite !label_token_short in Heq by assumption.
+  apply app_inv_head in Heq. exact Heq.
+Qed.
+
+(* a longer name is cut: the token is prefix ++ the first (width - length prefix) characters *)
+Lemma label_token_long : forall prefix name width,
+  no_blank prefix -> no_blank name -> (width < length prefix + length name)%nat -> (length prefix <= width)%nat ->
+  label_token prefix name width = prefix ++ firstn (width - length prefix) name.
+Proof.
+  intros prefix name width Hp Hn Hl Hw. unfold label_token, label_text, wrap_string.
+  replace (length name <=? width - length prefix)%nat with false by (symmetry; apply Nat.leb_gt; lia).
+  rewrite <- (app_nil_r (prefix ++ firstn (width - length prefix) name)) at 1.
+  change [] with (repeat 32%nat 0). apply strip_trailing_app_spaces. apply Forall_app. split; [exact Hp|].
+  apply Forall_forall. intros c Hc. unfold no_blank in Hn. rewrite Forall_forall in Hn. apply Hn.
+  rewrite <- (firstn_skipn (width - length prefix) name). apply in_or_app. left. exact Hc.
+Qed.
+
+(* two different names with the same first 21 characters get the same label; and the velocity column of "a" has the
+   label of the value column of a variable named "v_a" (characters as codes: a=97, v=118, _=95) *)
+Lemma label_collisions :
+  (exists n1 n2, n1 <> n2 /\ no_blank n1 /\ no_blank n2 /\ label_token [] n1 21 = label_token [] n2 21) /\
+  label_token [118; 95]%nat [97]%nat 21 = label_token [] [118; 95; 97]%nat 21.
+Proof.
+  split.
+  - exists (repeat 97 21 ++ [49])%nat, (repeat 97 21 ++ [50])%nat.
+    split; [intros H; vm_compute in H; discriminate|].
+    split; [unfold no_blank; cbn [repeat app]; repeat (constructor; try discriminate)|].
+    split; [unfold no_blank; cbn [repeat app]; repeat (constructor; try discriminate)|].
+    vm_compute. reflexivity.
+  - vm_compute. reflexivity.
+Qed.
